@@ -123,6 +123,25 @@ def main():
                                           f"of that call: {trail}", "match": {"op": "verify_reg", "clock": "sequence"}})
     res.samples.append({"chain_windows_relative_s": {k: [a - T0, b_ - T0] for k, (a, b_) in windows.items()}, "sequence": trail[:7]})
 
+    # ---- the attestation certificate itself pinned as the RP's anchor (as metadata services list them), its issuer not
+    # supplied: whatever the path validation makes of that, outside the certificate's own validity period it is not valid
+    from cryptography.hazmat.primitives import serialization as _ser
+    bp = _reg.build("packed", ("p256", 0, core.ES256), (), n_intermediates=0, base_time=base)
+    reqp, rp_ = bp
+    leaf = rp_.chain.leaf
+    ep = _reg.expectation(reqp, {"packed": [leaf.public_bytes(_ser.Encoding.PEM)]})
+    lnb, lna = leaf.not_valid_before_utc.timestamp(), leaf.not_valid_after_utc.timestamp()
+    for t in (lnb - 86400, lnb - 5, lnb + 5, T0, lna - 5, lna + 5, lna + 86400, lna + 10 ** 8):
+        set_clock(t + 0.5)
+        code = cases.run_reg(rp_.credential, ep)
+        res.evaluations += 1
+        tie.check(cases.reg_case(rp_.credential, ep), code, label=["pinned-leaf-at", t - T0])
+        res.nontrivial.add(("pinned-leaf", TZ, t - T0))
+        res.count("pinned-leaf:" + corr.kind(code))
+        if (t + 0.5 < lnb or t + 0.5 > lna + 1) and code["k"] == "accept":
+            res.violations.append({"why": f"attestation whose certificate is pinned as the anchor accepted at clock offset {t - T0:+.0f}s, outside "
+                                          f"that certificate's validity period (process TZ={TZ})", "offset": t - T0,
+                                   "match": {"op": "verify_reg", "clock": "pinned-leaf"}})
     if PART == "chain":
         set_clock(time.time())
         if drv:
@@ -188,6 +207,29 @@ def main():
             if code["k"] == "accept":
                 res.violations.append({"why": f"SafetyNet attestation accepted although its timestampMs ({f}) is decades away from the "
                                               f"verifier's clock, or no instant at all", "fault": f, "match": {"op": "verify_reg", "clock": "safetynet-unit"}})
+    # the payload's timestamp and the certificate's validity edge both close to now: the timestamp is judged against the clock
+    # (within the 10 s band it is fine), and so is the certificate - at the verifier's now, not at the sender's timestamp
+    DAY = datetime.timedelta(days=1)
+    SEC = datetime.timedelta(seconds=1)
+    for label, leaf_window, ts_shift, clock_dt in (("leaf-expired-3s-ago,ts-7s-ago", (-30 * DAY, -3 * SEC), -7000, 0.0),
+                                                   ("leaf-expired-2s-ago,ts-9s-ago", (-30 * DAY, -2 * SEC), -9000, 0.0),
+                                                   ("leaf-valid-from-in-5s,ts+8s", (5 * SEC, 365 * DAY), 8000, 0.0),
+                                                   ("leaf-valid-from-in-3s,ts+6s", (3 * SEC, 365 * DAY), 6000, 0.0)):
+        set_clock(T0 + clock_dt + 0.5)
+        bj = _reg.build("android-safetynet", ("p256", 2, core.ES256), (), base_time=base, chain_validity={"leaf": leaf_window},
+                        snet_ts_shift_ms=ts_shift)
+        if bj is None:
+            continue
+        reqj, rj = bj
+        ej = _reg.expectation(reqj, rj.roots)
+        code = cases.run_reg(rj.credential, ej)
+        res.evaluations += 1
+        res.nontrivial.add(("snet-joint", label))
+        res.count("safetynet-joint:" + corr.kind(code))
+        if code["k"] == "accept":
+            res.violations.append({"why": f"SafetyNet attestation accepted although its certificate is not valid at the verifier's clock "
+                                          f"({label}): judged at some other time", "case_label": label,
+                                   "match": {"op": "verify_reg", "clock": "safetynet-joint"}})
     # same SafetyNet response verified again after the clock has left the window
     trail = []
     for t_ms in [ts_ms, ts_ms + 5000, ts_ms + 12000, ts_ms, ts_ms - 12000, ts_ms + 1000]:
